@@ -20,3 +20,4 @@ CFG = dict(
      assumptions=["testing/synctest virtual time is correct", "hook points are add-only (commit in MANIFEST.hooks)"],
      timeout_quick=300, timeout_thorough=2400)
 CFG["rule"] += " Added after independently written breaking changes: Also: a CALLER of Enqueue/Dequeue parked after its stopped-test while a whole Close or another call completes (exhaustive); items due 90 min / 3 h ahead; and an injected fake clock (WithClock) a year away from the bubble's time in settled histories."
+CFG["rule"] += ' TestProcessorManyItems: up to 48 keys queued at once, dequeues from the middle and replacements against a map model on the bubble clock (non-trivial: a dequeue of a non-head item with >= 7 queued, or a replacement). TestProcessorTwoLoops: an exiting loop parked at loop.empty and the next loop parked at loop.peeked / loop.beforeTimer, a third call meanwhile, both release orders (exhaustive).'
